@@ -375,7 +375,7 @@ WrapHolds(pi, id, f, v, pre, post) ==
   /\ ty \in IntTypes /\ ~IsSigned(ty) /\ Narrow(pl, ty) /\ f.k \in {"eq", "gt", "lt"}
   /\ \/ Holds(pi, id, f, v + Pow2(Bits(pl, ty)), pre, post)
      \/ Holds(pi, id, f, v - Pow2(Bits(pl, ty)), pre, post)
-\* "narrowing-range": on a node of a signed type narrower than int the impossible range holds for v + 2^N or v - 2^N
+\* "narrowing-range": on a node of a signed type of less than 32 bits the impossible range holds for v + 2^N or v - 2^N
 \*     but not for v: the range of the wider source expression was kept across the conversion to the narrow type.
 \* "cast-unconverted" / "call-return-unconverted": the known value of a cast / of a call is the value before the
 \*     conversion to the cast type / return type (congruent modulo 2^N, e.g. (signed char)(-2) known 254).
@@ -383,7 +383,7 @@ WrapHolds(pi, id, f, v, pre, post) ==
 \*     attached to the whole conditional expression).
 NarrowRangeHolds(pi, id, f, v, pre, post) ==
   LET ty == N(pi, id).ty pl == PL(pi) IN
-  /\ ty \in IntTypes /\ IsSigned(ty) /\ Rank(ty) < 3 /\ f.k \in {"gt", "lt"}
+  /\ ty \in IntTypes /\ IsSigned(ty) /\ Narrow(pl, ty) /\ f.k \in {"gt", "lt"}
   /\ \/ Holds(pi, id, f, v + Pow2(Bits(pl, ty)), pre, post)
      \/ Holds(pi, id, f, v - Pow2(Bits(pl, ty)), pre, post)
 Congruent(pi, id, f, v) ==
@@ -397,18 +397,29 @@ OtherBranchHolds(pi, id, f, pre, post) ==
      /\ LET o == E(pi, IF c.v # 0 THEN n.c ELSE n.b, c.st) IN
         /\ o.s = "ok"
         /\ LET cv == Conv(PL(pi), n.ty, o.v) IN cv.s = "ok" /\ Holds(pi, id, f, cv.v, pre, post)
+Place(pi, id, par) == N(pi, id).k \o N(pi, id).op \o ":" \o (IF par = 0 THEN "top" ELSE N(pi, par).k \o N(pi, par).op)
 ClassOf(pi, id, f, v, pre, post) ==
   IF f.k = "eq" /\ f.v = 1 /\ v # 0 /\ BoolCtx(pi, id, f.par) THEN "truthy-known-1"
   ELSE IF f.k \in {"gt", "lt"} /\ N(pi, id).k = "un" /\ N(pi, id).op = "~" THEN "bitnot-range"
+  \* "logical-non-boolean": a known value other than 0 / 1 on && || ! or a comparison (the value of an operand was
+  \* copied to the operator, e.g. j || (x > 5) known 2 because j is 2)
+  ELSE IF f.k = "eq" /\ f.v \notin {0, 1}
+          /\ (N(pi, id).k \in {"land", "lor"} \/ (N(pi, id).k = "un" /\ N(pi, id).op = "!") \/ (N(pi, id).k = "bin" /\ N(pi, id).op \in CmpOps))
+       THEN "logical-non-boolean"
   ELSE IF OtherBranchHolds(pi, id, f, pre, post) THEN "ternary-other-branch"
   ELSE IF N(pi, id).k = "cast" /\ Congruent(pi, id, f, v) THEN "cast-unconverted"
   ELSE IF N(pi, id).k = "callx" /\ Congruent(pi, id, f, v) THEN "call-return-unconverted"
   ELSE IF WrapHolds(pi, id, f, v, pre, post) THEN "unsigned-nowrap"
   ELSE IF NarrowRangeHolds(pi, id, f, v, pre, post) THEN "narrowing-range"
-  ELSE IF f.k # "seq" THEN ""
-  ELSE LET sv == SymVal(pi, f, pre, post) IN
-       IF sv = <<>> \/ ~SafeAdd(sv[1], f.v) THEN ""
-       ELSE IF v % 256 = (sv[1] + f.v) % 256 THEN "sym-mod256" ELSE ""
+  ELSE IF f.k = "seq" /\ LET sv == SymVal(pi, f, pre, post) IN
+                         sv # <<>> /\ SafeAdd(sv[1], f.v) /\ v % 256 = (sv[1] + f.v) % 256 THEN "sym-mod256"
+  \* Impossible values and symbolic values are the unreliable fact kinds of cppcheck's value flow: contradictions that
+  \* fit none of the classes above are keyed by the syntactic place of the fact (kind of the node and of its parent)
+  \* instead of by program, e.g. "range:bin%:bin!=" = impossible range on a % node that is an operand of !=.
+  \* Contradicted KNOWN values (eq) and verdicts keep their per-program key.
+  ELSE IF f.k \in {"gt", "lt", "ne"} THEN "range:" \o Place(pi, id, f.par)
+  ELSE IF f.k \in {"seq", "sne", "sgt", "slt"} THEN "sym:" \o Place(pi, id, f.par)
+  ELSE ""
 
 FirstContradiction(pi, ev, pre, post) ==
   LET cs == Contradictions(pi, ev, pre, post) IN
